@@ -28,6 +28,7 @@ class FakeSock:
         self.blocking = blocking
         self.consumed_events = []
         self.recv_sizes = []
+        self.last_recv_len = None
 
     def _next(self):
         if not self.script:
@@ -51,9 +52,12 @@ class FakeSock:
             k = min(ev[1], n)
             chunk = self.stream[self.pos:self.pos + k]
             self.pos += len(chunk)
+            self.last_recv_len = len(chunk)
             return chunk
         if ev[0] == "E":
+            self.last_recv_len = 0
             return b""
+        self.last_recv_len = None
         self._raise(ev)
 
     def gettimeout(self):
@@ -122,6 +126,7 @@ def run_impl(case):
             obs["sleeps"] = list(sleeps)
             obs["events"] = sock.consumed_events
             obs["recv_sizes"] = sock.recv_sizes
+            obs["last_recv_len"] = sock.last_recv_len
             return obs
         else:
             data = stream_bytes(case["data"])
@@ -179,8 +184,8 @@ def oracle(case, obs):
                     bad.append(("recv-partial-wrong", "partialData is not the bytes received so far"))
                 if len(obs["partial"]) >= size:
                     bad.append(("recv-partial-not-short", "partialData has %d bytes for a %d byte read" % (len(obs["partial"]), size)))
-                if last is not None and last[0] not in ("E", "D"):
-                    bad.append(("recv-spurious-close", "connection-closed raised although the peer did not close"))
+                if obs.get("last_recv_len") != 0:
+                    bad.append(("recv-spurious-close", "connection-closed (with partial data) raised although the last recv did not report end of stream"))
             if obs["kind"] == "closed":
                 if last is not None and last[0] == "X" and last[1] in REQUIRED:
                     bad.append(("recv-retryable-fatal", "retryable errno %s ended the read" % last[1]))
